@@ -31,7 +31,7 @@ STORE = {"http://ex.test/a/t.json": {"type": "string"}, "t.json": {"type": "inte
 OVERRIDABLE = ["minimum", "maxLength", "minLength", "type", "enum", "marker", "required", "const"]
 OPS = ["redefine", "redefine_many", "remove", "extend_none", "extend_override", "extend_add", "extend_types",
        "extend_wrap", "create", "create_versioned", "instance_types", "checks", "cls_checks", "fc_new", "fc_subset",
-       "retype_core"]
+       "retype_core", "create_default_types"]
 CORE_TYPE_NAMES = ["number", "object", "array", "string", "integer"]
 
 
@@ -242,6 +242,7 @@ class C16(Prop):
         lazy = impl.CLS[7](copy.deepcopy(lazy_schema))
         lazy_expected = probe_validator(impl.CLS[7](copy.deepcopy(lazy_schema)))
         parents = {}
+        legacy_classes = set()          # classes made with default_types (and their children): no type checker may be passed on
         fresh_ids = 0
         for n, st_ in enumerate(case["steps"]):
             try:
@@ -344,6 +345,29 @@ class C16(Prop):
                         e = w.add("cls", V.extend(c, {k: wrapped}), desc)
                         if probe_class(e)[:-1] != probe_class(c)[:-1]:
                             res.fail(("extend-with-wrapper-differs-from-parent",), desc)
+                elif op == "create_default_types":
+                    # the deprecated way to say which Python types the JSON types are; such a class can still be
+                    # extended (without a type checker), and its children are like it in everything else
+                    import warnings
+                    c = w.pick("cls", on)
+                    meta = dict(c.META_SCHEMA)
+                    fresh_ids += 1
+                    idk = "$id" if "$id" in meta or "id" not in meta else "id"
+                    meta[idk] = "http://verif.test/meta-dt-%d-%d" % (n, fresh_ids)
+                    with warnings.catch_warnings():
+                        warnings.simplefilter("ignore")
+                        dt = V.create(meta_schema=meta, validators=dict(c.VALIDATORS), id_of=c.ID_OF, default_types={
+                            "array": list, "boolean": bool, "integer": int, "null": type(None), "number": (int, float),
+                            "object": dict, "string": str, "any": object})
+                        w.add("cls", dt, desc)
+                        legacy_classes.add(id(dt))
+                        child = V.extend(dt)
+                    legacy_classes.add(id(child))
+                    w.add("cls", child, desc + " -> extend()")
+                    if probe_class(child) != probe_class(dt):
+                        res.fail(("extend-no-change-differs-from-parent", "default_types-parent"), desc)
+                elif op == "extend_types" and id(w.pick("cls", on)) in legacy_classes:
+                    res.labels.append("extend_types-on-legacy-class(skipped)")
                 elif op == "extend_types":
                     c = w.pick("cls", on)
                     tc = w.pick("tc", on + fl)
